@@ -32,6 +32,26 @@ Section cslot_induction.
     end.
 End cslot_induction.
 
+(* ---- induction principle for the nested type raw -------------------------------------------------- *)
+Section raw_induction.
+  Variable P : raw -> Prop.
+  Hypothesis HN : P RNil.
+  Hypothesis HSc : forall t z, P (RScalar t z).
+  Hypothesis HB : forall zs, P (RBytes zs).
+  Hypothesis HM : forall kvs, Forall (fun kv => P (snd kv)) kvs -> P (RMap kvs).
+  Hypothesis HS : forall l, Forall P l -> P (RSlice l).
+  Fixpoint raw_ind' (r : raw) : P r :=
+    match r with
+    | RNil => HN
+    | RScalar t z => HSc t z
+    | RBytes zs => HB zs
+    | RMap kvs => HM kvs ((fix go (l : list (Z * raw)) : Forall (fun kv => P (snd kv)) l :=
+                             match l with [] => Forall_nil _ | kv :: l' => Forall_cons _ (raw_ind' (snd kv)) (go l') end) kvs)
+    | RSlice l => HS l ((fix go (l : list raw) : Forall P l :=
+                           match l with [] => Forall_nil _ | x :: l' => Forall_cons _ (raw_ind' x) (go l') end) l)
+    end.
+End raw_induction.
+
 (* ---- small list facts -------------------------------------------------------------------------------- *)
 Lemma map_upd {A B} (f : A -> B) (l : list A) i x : map f (upd l i x) = upd (map f l) i (f x).
 Proof. revert i; induction l as [|y l IH]; intros [|i]; simpl; auto. now rewrite IH. Qed.
@@ -181,6 +201,20 @@ Proof.
     unfold on_cs; rewrite H by reflexivity; reflexivity.
 Qed.
 
+Lemma abs_mk_cs rows : abs_slot (mk_cs rows) = VS (map abs_row rows).
+Proof. destruct rows; reflexivity. Qed.
+
+Lemma abs_craw r : abs_slot (craw r) = vraw r.
+Proof.
+  induction r as [|t z|zs|kvs IH|l IH] using raw_ind'; simpl; auto.
+  - pose proof (abs_prim_copy (map (fun z => [CP z]) zs) (CS None) eq_refl) as E. simpl in E. rewrite E.
+    unfold abs_row. rewrite map_map. reflexivity.
+  - rewrite abs_mk_cs. unfold abs_row. rewrite map_map. f_equal. f_equal. f_equal. f_equal. f_equal.
+    apply map_ext_Forall. eapply Forall_impl; [|exact IH]. intros kv H. simpl. now rewrite H.
+  - rewrite abs_mk_cs. unfold abs_row. rewrite map_map. f_equal. f_equal. f_equal. f_equal. f_equal.
+    apply map_ext_Forall. eapply Forall_impl; [|exact IH]. intros v H. simpl. now rewrite H.
+Qed.
+
 Lemma clocal_abs sc lo x : option_map abs_row (clocal sc lo x) = vlocal sc lo (abs_row x).
 Proof.
   destruct lo; simpl; unfold abs_row; apply on_slot_abs; intros s; simpl; auto;
@@ -207,6 +241,9 @@ Proof.
     destruct (find_idx (key_is k) l); simpl; fold abs_row; auto. now rewrite swap_remove_map.
   - rewrite abs_prim_copy by auto. now rewrite abs_prim_rows.
   - pose proof (abs_prim_copy (prim_rows zs) (CS None) eq_refl) as E. simpl in E. rewrite E. now rewrite abs_prim_rows.
+  - apply abs_craw.
+  - rewrite abs_mk_cs. unfold abs_row. rewrite map_map. f_equal. apply map_ext. intros kv. simpl. now rewrite abs_craw.
+  - rewrite abs_mk_cs. unfold abs_row. rewrite map_map. f_equal. apply map_ext. intros v. simpl. now rewrite abs_craw.
 Qed.
 
 (* ---- CopyTo is exact when no field is "copied only when set" ------------------------------------------- *)
